@@ -274,17 +274,31 @@ impl<H: Hasher> MerkleTree<H> {
     /// Checks whether the `proof` for the specified `index` is valid.
     ///
     /// # Errors
-    /// Returns an error if the specified `proof` (which is a Merkle path) does not resolve to the
-    /// specified `root`.
+    /// Returns an error if:
+    /// * The specified `proof` (which is a Merkle path) consists of fewer than two digests or of
+    ///   more digests than a tree addressable by `usize` can have levels.
+    /// * The specified `index` is greater than or equal to the number of leaves of a tree for
+    ///   which the `proof` could have been generated.
+    /// * The specified `proof` does not resolve to the specified `root`.
     pub fn verify(
         root: H::Digest,
         index: usize,
         proof: &[H::Digest],
     ) -> Result<(), MerkleTreeError> {
+        // a path consists of a leaf and at least one node, and it addresses one of the
+        // 2^(path length - 1) leaves of the tree it was made for
+        if proof.len() < 2 || proof.len() > usize::BITS as usize {
+            return Err(MerkleTreeError::InvalidProof);
+        }
+        let num_leaves = 1usize << (proof.len() - 1);
+        if index >= num_leaves {
+            return Err(MerkleTreeError::LeafIndexOutOfBounds(num_leaves, index));
+        }
+
         let r = index & 1;
         let mut v = H::merge(&[proof[r], proof[1 - r]]);
 
-        let mut index = (index + 2usize.pow((proof.len() - 1) as u32)) >> 1;
+        let mut index = (index + num_leaves) >> 1;
         for &p in proof.iter().skip(2) {
             v = if index & 1 == 0 {
                 H::merge(&[v, p])
